@@ -86,7 +86,7 @@ func (propC14) Gen(seed uint64, ex map[string]bool) interface{} {
 		vec(map[string]int{"tokenslice.pool_min_cap": 1, "tokenslice.pool_max_cap": inf, "parser.optimized_threshold": 0, "tokenizer.min_capacity": 2})
 	}
 	if r.P(34) && !ex["real-padding"] {
-		sc.PadKind = pick(r, []string{"text", "comment", "text"})
+		sc.PadKind = pick(r, []string{"text", "comment", "text", "lines", "manycomments"})
 		all := []int{60, 250, 1000, 4090, 4097, 5000, 21000, 70000, 110000, 300000}
 		n := r.Range(1, 3)
 		for i := 0; i < n; i++ {
@@ -192,7 +192,7 @@ func (propC14) Run(scI interface{}) *Outcome {
 			// the reference has a one-character pad of the same kind at the same places, so that only
 			// the *length* of the inserted material differs between reference and padded template
 			shortPad := sentinel
-			if sc.PadKind == "comment" {
+			if sc.PadKind == "comment" || sc.PadKind == "manycomments" {
 				shortPad = "{#c#}"
 			}
 			ref, _ := c14Render(sc.Prog, nil, build(shortPad))
@@ -203,10 +203,17 @@ func (propC14) Run(scI interface{}) *Outcome {
 						per = 1
 					}
 					var pad, want string
-					if sc.PadKind == "text" {
+					switch sc.PadKind {
+					case "text":
 						pad = strings.Repeat("p", per)
 						want = strings.ReplaceAll(ref.Out, sentinel, pad)
-					} else {
+					case "lines": // many short lines: the template's line count grows with the padding
+						pad = strings.Repeat("l\n", per/2+1) + "l" // no whitespace at either end: a neighbouring dash must not eat it
+						want = strings.ReplaceAll(ref.Out, sentinel, pad)
+					case "manycomments": // many tokens
+						pad = strings.Repeat("{#c#}", per/5+1)
+						want = ref.Out
+					default:
 						pad = "{#" + strings.Repeat("c", per) + "#}"
 						want = ref.Out
 					}
